@@ -130,7 +130,18 @@ def c17(tier, rng, seed):
         n += 1
         if strip(io[i]).startswith('(k c0'): nt.add(case)
         if io[i] != mo[i]:
-            ds = [d for d in c.relevant_diffs(strip(io[i]), strip(mo[i]), None) if not d[0].endswith('m') and not ('r' in d[0] and '(v c12 ' in io[i])]
+            # the part of the model C17's theorems rest on: acceptance, Complete / Incomplete, sentence fields,
+            # payload — not the content of decoded messages
+            pa, pb = c.pruned(strip(io[i])), c.pruned(strip(mo[i]))
+            ds = [d for d in c.relevant_diffs(pa, pb, None) if not d[0].endswith('m')] if pa != pb else []
+            if ds and allc[i].split(' ')[2] == '1':
+                # a disagreement on whether the payload decodes is not C17's business
+                j = i
+                while not allc[j].startswith('H'): j -= 1
+                t = allc[i].split(' '); t[2] = '0'
+                hh = allc[j:i] + [' '.join(t)]
+                xi, xm = c.run_impl(hh, 'std', 'debug')[-1], c.run_model(hh, 'std', 'asis')[-1]
+                if c.pruned(strip(xi)) == c.pruned(strip(xm)): ds = []
             if ds and len(viol) < 20:
                 j = i
                 while not allc[j].startswith('H'): j -= 1
@@ -163,7 +174,7 @@ def replay_c17(rp):
     if rp.get('proj', None) != 0:
         cases = rp['cases']
         io = c.run_impl(cases, 'std', 'debug'); mo = c.run_model(cases, 'std', 'asis')
-        a, b = c.split_line(io[-1])[0], c.split_line(mo[-1])[0]
+        a, b = c.pruned(c.split_line(io[-1])[0]), c.pruned(c.split_line(mo[-1])[0])
         print('impl :', a[:1500]); print('model:', b[:1500])
         ds = [d for d in c.relevant_diffs(a, b, None) if not d[0].endswith('m')]
         if ds: print('VIOLATION property=C17 replay=(this file)'); return 1
@@ -203,6 +214,7 @@ def run_cli(exe, stream):
     p = subprocess.run([exe], input=stream, stdout=subprocess.PIPE, stderr=subprocess.PIPE, timeout=120)
     return p.returncode, p.stdout, p.stderr
 
+CLASS_NOTES = []
 def cli_check_one(exe, stream, hx, model_line, harness_line):
     """returns a description of the first deviation or None"""
     rc, out, err = run_cli(exe, stream)
@@ -219,8 +231,13 @@ def cli_check_one(exe, stream, hx, model_line, harness_line):
     for line, rec, it in zip(lines, recs, items):
         cls = rec[1][0][1]      # '0' stdout record, '1' stderr record, '2' nothing
         lib = {'o': '0', 'e': '1', 'n': '2'}.get(it[0], '9')
+        if lib == '9':
+            return 'the library panics on line %r: the tool cannot get past it' % line[:80]
         if cls != lib:
-            return 'library classifies line %r as %s, model as %s' % (line[:80], lib, cls)
+            # which lines complete a message or are rejected is the library's business (other properties
+            # decide it against the model); the tool is judged against the library it links
+            CLASS_NOTES.append((line[:80], lib, cls))
+            cls = lib
         if cls == '0': exp_out.append((line, bytes.fromhex(it[2:])))
         elif cls == '1': exp_err.append((line, bytes.fromhex(it[2:])))
     if rc != 0:
@@ -268,7 +285,8 @@ def c20(tier, rng, seed):
             viol.append({'batch': 'cli', 'build': ['std', 'debug'], 'cases': [cases[i][:200000]], 'impl': r, 'model': mo[i][:2000],
                          'diffs': [['cli', r, '']], 'proj': 0})
     return {'violations': viol, 'evaluations': len(streams), 'nontrivial': nt,
-            'batches': {'cli-streams': {'cases': len(streams), 'input_lines': n_lines, 'builds': ['aisparser binary (std/debug)']}},
+            'batches': {'cli-streams': {'cases': len(streams), 'input_lines': n_lines, 'builds': ['aisparser binary (std/debug)'],
+                                        'lines_where_library_and_model_classify_differently': len(CLASS_NOTES)}},
             'samples': [{'batch': 'cli-streams', 'case': cases[min(7, len(cases) - 1)][:300]}]}
 
 def replay_c20(rp):
@@ -281,6 +299,49 @@ def replay_c20(rp):
     if r: print('VIOLATION property=C20 replay=(this file)'); return 1
     return 0
 
-SPECIAL = {'C16': c16, 'C19': c19, 'C17': c17, 'C20': c20}
+# ---------------------------------------------------------------- C05 (metamorphic part)
+
+def c05(tier, rng, seed):
+    """the clause "the decoded message equals the one obtained by sending the same payload unfragmented",
+    on the implementation alone: every group is followed by its payload as one sentence (same parser,
+    same decode flag); the two decoded messages (or the two failures) must be the same"""
+    import random as _r
+    cases = P.reassembly_cases(_r.Random('C05-meta-%d' % seed), tier)
+    viol, n, nt = [], 0, set()
+    for build in ([('std', 'debug')] if tier == 'quick' else P.ALL3):
+        io = c.run_impl(cases, *build)
+        start = 0
+        for i in range(1, len(cases) + 1):
+            if i < len(cases) and not cases[i].startswith('H'): continue
+            h = list(range(start, i)); start = i
+            lines = [j for j in h if not cases[j].startswith('H')]
+            if len(lines) < 3: continue
+            fin, ref = lines[-2], lines[-1]
+            # the reference is the unfragmented form of the group before it (reassembly_cases' first family)
+            if b',1,1,' not in bytes.fromhex(cases[ref].split(' ')[-1]): continue
+            n += 1
+            a, b = c.split_line(io[fin])[0], c.split_line(io[ref])[0]
+            ma, mb = c.message_of(a), c.message_of(b)
+            oa, ob = a.split(' ')[1] if ' ' in a else a, b.split(' ')[1] if ' ' in b else b
+            if a.startswith('(k c0'): nt.add(cases[fin])
+            if (ma != mb or (a.startswith('(k c0') != b.startswith('(k c0'))) and len(viol) < 20:
+                viol.append({'batch': 'fragmented-vs-unfragmented', 'build': list(build), 'cases': [cases[j] for j in h],
+                             'impl': 'group: ' + a[:1800], 'model': 'same payload unfragmented (implementation): ' + b[:1800],
+                             'diffs': [['meta', (ma or a)[:200], (mb or b)[:200]]], 'proj': 0})
+    return {'violations': viol, 'evaluations': n, 'nontrivial': nt,
+            'batches': {'fragmented-vs-unfragmented': {'cases': n, 'builds': ['std/debug'] if tier == 'quick' else ['std/debug', 'alloc/debug', 'none/debug'], 'oracle': 'the implementation itself on the unfragmented sentence'}},
+            'samples': [{'batch': 'fragmented-vs-unfragmented', 'case': cases[1][:300]}]}
+
+def replay_c05(rp):
+    if rp.get('proj', None) != 0:
+        return None
+    io = c.run_impl(rp['cases'], *rp['build'])
+    a, b = c.split_line(io[-2])[0], c.split_line(io[-1])[0]
+    print('group       :', a[:1500]); print('unfragmented:', b[:1500])
+    if c.message_of(a) != c.message_of(b) or (a.startswith('(k c0') != b.startswith('(k c0')):
+        print('VIOLATION property=C05 replay=(this file)'); return 1
+    print('same decoded message now'); return 0
+
+SPECIAL = {'C16': c16, 'C19': c19, 'C17': c17, 'C20': c20, 'C05': c05}
 ONLY_SPECIAL = {'C16', 'C19', 'C17', 'C20'}
-REPLAY = {'C16': replay_three_way, 'C19': replay_three_way, 'C17': replay_c17, 'C20': replay_c20}
+REPLAY = {'C16': replay_three_way, 'C19': replay_three_way, 'C17': replay_c17, 'C20': replay_c20, 'C05': replay_c05}
